@@ -615,4 +615,5 @@ def run(ctx):
                        "version / the help page are not consulted for it - '-V' on that command runs its handler" % fn.short)
     ctx.require(n20 >= 1, "no construction of a Command found in the package")
 
+    ctx.borrow("c08", "C08-R3", "C09-R21", "'switches act the same wherever they appear' and 'after -- they are ignored': whether a switch is on the line is asked of the option tokens, which every kind of raw args derives as the tokens before the first '--' (from the token list, not from the text of the line)")
     return ctx.results
